@@ -214,7 +214,7 @@ def exact_sqrt(v):
         if n >= 0:
             r = math.isqrt(n)
             if r * r == n:
-                return float(r)
+                return rnp.float64(r)
             if core.CUR[0] is not None and EXACT[0]:
                 return sx_sqrt(SNum(Poly.const(n), False))
     return rnp.sqrt(v)
@@ -803,6 +803,8 @@ def scalar_with_array(s, arr, op, rev=False):
 
 def astype(a, t):
     a = to_sarr(a)
+    if isinstance(t, type) and issubclass(t, rnp.generic):
+        t = rnp.dtype(t)
     if t in (builtins.int, rnp.int64, rnp.int32, rnp.intp, rnp.int_, 'int') or (isinstance(t, rnp.dtype) and t.kind in 'iu'):
         r = emap(lambda v: sx_int(v) if isinstance(v, SYM) else builtins.int(v), a, ldtype='int')
         c = try_concrete(r)
